@@ -20,4 +20,56 @@ theorem validate_count_agrees (A : Arr) (h : validate A = some (.ok ())) :
     exactCardO A = .ok (cnt (numVars A) (fun v => evW A (numVars A) v (root A))) :=
   B.Props.C09.exact_card_spec (validate_wf A h).1
 
+
+/-! ### the same with the model of `eval_in` itself: count = |{v | eval_in(v)}| -/
+
+/-- `eval_in` on the valuation whose first `n` entries are `v 0 … v (n-1)` returns `true` (a panic or a divergence
+    counts as "not true"; on accepted diagrams neither happens, `wf_eval_terminates`) -/
+def evalTrue (A : Arr) (n : Nat) (v : Nat → Bool) : Bool :=
+  match evalIn A (Array.ofFn (n := n) fun i => v i.val) (n + 1) with
+  | some (.ok true) => true
+  | _ => false
+
+theorem evalTrue_eq_evW {A : Arr} {n : Nat} (h : WFo A n) (v : Nat → Bool) :
+    evalTrue A n v = evW A n v (root A) := by
+  have hpos : 0 < A.size := by
+    rcases Nat.eq_zero_or_pos A.size with h0 | h0
+    · have := h.zero; rw [Array.getElem?_eq_none (by omega)] at this; simp at this
+    · exact h0
+  unfold evalTrue
+  rw [wf_eval_terminates A n _ h (by simp)]
+  have e : evW A n (fun i => (Array.ofFn (n := n) fun i => v i.val).getD i false) (root A) = evW A n v (root A) := by
+    apply evW_indep h n (root A) (by unfold root; omega) (by omega)
+    intro i _ hi
+    simp [Array.getD, hi]
+  rw [e]
+  cases evW A n v (root A) <;> rfl
+
+/-- **wf_count_agrees**: on every level-well-formed diagram `exact_cardinality` returns, without panicking, the number of
+    valuations (among all `2ⁿ`, enumerated by `allVals`, see `C09.all_vals_enumeration`) on which `eval_in` is true -/
+theorem wf_count_agrees {A : Arr} {n : Nat} (h : WFo A n) :
+    exactCardO A = .ok ((allVals n).filter (evalTrue A n)).length := by
+  rw [B.Props.C09.exact_card_spec h, B.Props.C09.cnt_eq_filter_length]
+  congr 2
+  apply List.filter_congr
+  intro v _
+  exact (evalTrue_eq_evW h v).symm
+
+/-- "model counting agrees with evaluation" for everything `validate` passes … -/
+theorem validate_count_eq_eval (A : Arr) (h : validate A = some (.ok ())) :
+    exactCardO A = .ok ((allVals (numVars A)).filter (evalTrue A (numVars A))).length :=
+  wf_count_agrees (validate_wf A h).1
+
+/-- … and for everything `from_nodes` accepts -/
+theorem from_nodes_count_eq_eval (d b : Arr) (h : fromNodes d = .ok b) :
+    exactCardO b = .ok ((allVals (numVars b)).filter (evalTrue b (numVars b))).length := by
+  obtain ⟨rfl, hw⟩ := (from_nodes_wf d b).1 h
+  exact wf_count_agrees hw
+
+example : exactCardO exOk = .ok 3 ∧ ((allVals 2).filter (evalTrue exOk 2)).length = 3 := by
+  have := validate_count_eq_eval exOk exOk_valid
+  have e : ((allVals (numVars exOk)).filter (evalTrue exOk (numVars exOk))).length = 3 := by decide +kernel
+  rw [e] at this
+  exact ⟨this, e⟩
+
 end B.Props.C13
